@@ -45,6 +45,9 @@ static Case decode(tape_t const& tape)
     c.rounds = 1 + static_cast<int>(t.below(3));
     c.perturb = t.pick({0, 0, 1, 2});
     c.burners = t.pick({0, 0, 16, 40});
+    // every perturbation is a sched_yield() in the middle of an operation; with 40 busy threads competing for the CPUs each of them costs
+    // a scheduling quantum: 3 x 20000 elements took more than the 60 s watchdog (measured: 0.05 s without, 4 s with 16, > 60 s with 40 busy threads)
+    if (c.burners >= 40 && c.perturb && c.per_producer > 2000) c.per_producer = 2000;
     return c;
 }
 static std::string describe(tape_t const& tape)
